@@ -67,6 +67,15 @@ func simTaskBegin(kind string, id int64) {
 	}
 }
 
+// simGo starts a goroutine; under simulation its start is a schedule point of
+// its own (nothing of f has run yet when the spawner goes on).
+func simGo(f func()) {
+	go func() {
+		simYield("go.start")
+		f()
+	}()
+}
+
 func simTaskEnd() {
 	if h := simHooks.Load(); h != nil && h.TaskEnd != nil {
 		h.TaskEnd()
